@@ -25,7 +25,10 @@ const MS: u64 = 1_000_000;
 static UNIQ: AtomicU64 = AtomicU64::new(0);
 
 /// task programs
-pub const PROGS: [&str; 12] = ["Return", "Panic", "PanicFmt", "Suspend", "Delay5", "CancelSelf", "CancelPrev", "Delay5x2", "SubmitInside", "JoinNext", "Delay100", "JoinSkipShort"];
+pub const PROGS: [&str; 13] = ["Return", "Panic", "PanicFmt", "Suspend", "Delay5", "CancelSelf", "CancelPrev", "Delay5x2", "SubmitInside", "JoinNext", "Delay100", "JoinSkipShort", "WaitOtherPool"];
+
+/// addresses of the pools of the history that is running (a task body may have to talk to ANOTHER pool)
+static POOL_PTRS: Mutex<Vec<usize>> = Mutex::new(Vec::new());
 
 #[derive(Clone, Debug, PartialEq, Eq)]
 pub enum Op {
@@ -268,6 +271,9 @@ struct Shared {
     body_cancels: Vec<(usize, bool, bool)>,
     /// submissions made from inside a task body: (task, pool was Running, accepted)
     inner_submits: Vec<(usize, bool, bool)>,
+    /// waits made from inside a task body on the OTHER pool, for an id nobody submitted:
+    /// (task, the other pool was Stopped when the wait began, result)
+    other_waits: Vec<(usize, bool, String)>,
     /// joins made from inside a task body: (joiner, target, result, virtual start, timeout in ns)
     inner_joins: Vec<(usize, usize, String, u64, u64)>,
 }
@@ -311,6 +317,7 @@ pub fn run_history(cfg: &Cfg, hist: &[Op], emit_at: Option<&mut Emitter>) -> Out
         .enumerate()
         .map(|(i, (min, max, ka))| CoroutinePool::new(format!("pool-{uniq}-{i}"), 64 * 1024, *min, *max, *ka))
         .collect();
+    *POOL_PTRS.lock().unwrap() = pools.iter().map(|p| std::ptr::from_ref(p) as usize).collect();
     let sh: Arc<Mutex<Shared>> = Arc::new(Mutex::new(Shared::default()));
     let mut tasks: Vec<TaskInfo> = Vec::new();
     let mut viols: Vec<Viol> = Vec::new();
@@ -428,6 +435,22 @@ pub fn run_history(cfg: &Cfg, hist: &[Op], emit_at: Option<&mut Emitter>) -> Out
                                     Err(e) => format!("IoErr({:?})", e.kind()),
                                 };
                                 shc.lock().unwrap().inner_joins.push((t, tt, txt, 0, 5_000 * MS));
+                            }
+                            step(1);
+                        }
+                        "WaitOtherPool" => {
+                            // a coroutine-side wait on the other pool for a task that will never run there
+                            let ptrs = POOL_PTRS.lock().unwrap().clone();
+                            if ptrs.len() == 2 && who < 2 {
+                                let other = unsafe { &*(ptrs[1 - who] as *const CoroutinePool<'static>) };
+                                let stopped = other.state() == PoolState::Stopped;
+                                let r = other.wait_task_result(0x0dead_beef_u64 + t as u64, Duration::from_millis(50));
+                                let txt = match r {
+                                    Ok(Ok(v)) => format!("Ok({v:?})"),
+                                    Ok(Err(m)) => format!("Err({m})"),
+                                    Err(e) => format!("IoErr({:?})", e.kind()),
+                                };
+                                shc.lock().unwrap().other_waits.push((t, stopped, txt));
                             }
                             step(1);
                         }
@@ -604,6 +627,12 @@ pub fn run_history(cfg: &Cfg, hist: &[Op], emit_at: Option<&mut Emitter>) -> Out
             Op::Stop(p) => {
                 stopped_once[*p] = true;
                 cur_pool.store(*p as u64, Ordering::SeqCst);
+                // (what had finished BEFORE the stop began, on ANY pool: the pools share the queue and a stopping
+                // pool runs whatever is queued, so only then is there nothing for stop to spend time on)
+                let (started_before, finished_before) = {
+                    let s = sh.lock().unwrap();
+                    (s.started.clone(), s.finished.clone())
+                };
                 let t0 = now();
                 let r = pools[*p].stop(Duration::from_millis(50));
                 cur_pool.store(u64::MAX, Ordering::SeqCst);
@@ -634,7 +663,7 @@ pub fn run_history(cfg: &Cfg, hist: &[Op], emit_at: Option<&mut Emitter>) -> Out
                         }
                     }
                     // C11: all work done or cancelled => stop is prompt, not the whole timeout
-                    let all_settled = tasks.iter().enumerate().all(|(t, ti)| !ti.accepted || ti.pool != *p || finished[t] || ti.cancelled || (started[t] > 0 && expected_result(ti.prog).is_err()));
+                    let all_settled = tasks.iter().enumerate().all(|(t, ti)| !ti.accepted || finished_before[t] || ti.cancelled || (started_before[t] > 0 && expected_result(ti.prog).is_err()));
                     if all_settled && elapsed >= 45 * MS {
                         push(&mut viols, "C11", "stop-prompt-when-work-done", "-", at(format!("all tasks of the pool had finished or been cancelled, yet stop() burned {elapsed}ns of its 50ms timeout (running size {})", pools[*p].get_running_size())));
                     }
@@ -647,7 +676,8 @@ pub fn run_history(cfg: &Cfg, hist: &[Op], emit_at: Option<&mut Emitter>) -> Out
                         let s = sh.lock().unwrap();
                         (s.started.clone(), s.finished.clone())
                     };
-                    let all_settled = tasks.iter().enumerate().all(|(t, ti)| !ti.accepted || ti.pool != *p || finished[t] || ti.cancelled || (started[t] > 0 && expected_result(ti.prog).is_err()));
+                    let _ = (&started, &finished);
+                    let all_settled = tasks.iter().enumerate().all(|(t, ti)| !ti.accepted || finished_before[t] || ti.cancelled || (started_before[t] > 0 && expected_result(ti.prog).is_err()));
                     let direct = hist[..=k].iter().any(|o| *o == Op::SubmitCo(*p));
                     if all_settled && !direct {
                         push(&mut viols, "C11", "stop-prompt-when-work-done", "stop-failed", at(format!("all tasks of the pool had finished or been cancelled, yet stop() failed with {:?} after {elapsed}ns (running size {}): idle workers kept it waiting", r.as_ref().err().map(std::io::Error::kind), pools[*p].get_running_size())));
@@ -676,6 +706,14 @@ pub fn run_history(cfg: &Cfg, hist: &[Op], emit_at: Option<&mut Emitter>) -> Out
                     push(&mut viols, "C12", "submission-rejected-after-stop", "from-a-task-while-stopping", at(format!("task T{t} submitted a task while its pool was stopping and the submission was accepted")));
                 }
                 witnesses.push("submission_from_inside_a_task");
+            }
+            for (t, stopped, txt) in sh.lock().unwrap().other_waits.clone() {
+                if stopped {
+                    witnesses.push("coroutine_waited_on_a_stopped_pool");
+                    if txt != "Err(The coroutine pool has stopped)" {
+                        push(&mut viols, "C12", "waiter-on-stopped-pool-gets-an-error", "waiter-is-a-coroutine", at(format!("task T{t} waited (from inside another pool) on a pool that was already stopped, for a task that will never run there, and got {txt} instead of the pool-has-stopped error")));
+                    }
+                }
             }
             for (j, target, txt, started_at, timeout) in joins {
                 witnesses.push("join_from_inside_a_task");
@@ -1079,6 +1117,8 @@ pub fn configs(scen: &str, tier: &str) -> Vec<Cfg> {
             v.push(all("lifecycle", vec![(0, 1, 0)], 4, &["Return", "Delay5", "Delay5x2"], &[0], d(3, 3), &["submit", "pass", "adv", "wait", "cancel", "stop", "join"], d(5, 6)));
             v.push(all("stopping-window", vec![(0, 2, 0)], 4, &["Return", "SubmitInside", "Delay100"], &[0], d(2, 3), &["submit", "pass", "adv", "stop"], d(4, 5)));
             v.push(all("lifecycle-2", vec![(0, 2, 0)], 4, &["Return", "Suspend"], &[0], d(2, 3), &["submit", "pass", "wait", "stop", "join"], d(5, 6)));
+            // a task of one pool waits on the other pool, which may have been stopped meanwhile
+            v.push(all("wait-on-the-other-pool", vec![(0, 1, 0), (0, 1, 0)], 2, &["Return", "WaitOtherPool"], &[0], d(2, 2), &["submit", "pass", "stop"], d(4, 5)));
         }
         // C13: cancel isolation
         "pool.c13" => {
